@@ -149,7 +149,7 @@ theorem install {P : Prog} {rank : Nat → Nat} {B : List NodeId} (hacy : Acycli
     (hold : ∀ rev, alookup s.derived id = some rev → rev.tv < s.epoch ∧
         ((v = rev.val ∧ tuN = rev.tu) ∨ (rev.deps ≠ [] ∧ rev.tv < tuN ∧ v ≠ rev.val)))
     (he : sF.epoch = s3.epoch) (hs : sF.srcs = s3.srcs) (hm : sF.maps = s3.maps)
-    (hd : sF.derived = ainsert s3.derived id (Rev.mk v tuN s3.epoch fr3.rdeps.reverse))
+    (hd : sF.derived = ainsert s3.derived id (Rev.mk v tuN s3.epoch fr3.rdeps.reverse)) (hlg : sF.log = s3.log)
     (hstk : ∀ fr, fr ∈ sF.stack → fr.id ∈ B) :
     INV P sF B ∧ Evolves (fun q => rank q.fn ≤ rank id.fn) s sF := by
   have hlk : ∀ q, q ≠ id → alookup sF.derived q = alookup s3.derived q := by
@@ -163,7 +163,13 @@ theorem install {P : Prog} {rank : Nat → Nat} {B : List NodeId} (hacy : Acycli
   have hE : s3.epoch = s.epoch := hev.epoch
   -- the evolution of the whole storage
   have hevF : Evolves (fun q => rank q.fn ≤ rank id.fn) s sF := by
-    refine ⟨he.trans hev.epoch, hs.trans hev.srcs, hm.trans hev.maps, ?_, ?_⟩
+    refine ⟨he.trans hev.epoch, hs.trans hev.srcs, hm.trans hev.maps, ?_, ?_, ?_⟩
+    rotate_left 2
+    · obtain ⟨new, e, j⟩ := hev.log
+      refine ⟨new, by rw [hlg]; exact e, fun x hx => ⟨?_, (j x hx).2⟩⟩
+      rcases (j x hx).1 with hb | hb
+      · exact Nat.le_of_lt hb
+      · rw [hb]; exact Nat.le_refl _
     · intro q r hq
       by_cases hqi : q = id
       · subst hqi
